@@ -4,7 +4,7 @@ import math
 
 SQ2 = math.sqrt(2.0)
 ITERATIVE = {"FSESJACOBI", "FSESQL", "FSESCUPPEN", "GTE"}
-ILL = {"repeated", "near", "spread"}   # classes where analytical solvers are documented/expected to lose accuracy
+ILL = {"repeated", "near", "spread", "double"}   # classes where analytical solvers are documented/expected to lose accuracy
 
 
 def tolerance(solver, n, cat, metric):
@@ -88,12 +88,13 @@ def cases(rng, n_random, dims=(2, 3)):
     `spread` = eigenvalues of very different magnitude), nearly diagonal, random rotations."""
     out = []
 
-    def add(cat, n, lmb, q):
+    def add(cat, n, lmb, q, fixed=None):
         a = sym_from(lmb, q)
         if n == 2:
             # plane tensor: rotation about z only was used by the caller
             a[0][2] = a[2][0] = a[1][2] = a[2][1] = 0.0
-        out.append(("%s%d_%d" % (cat, n, len(out)), cat, n, to_mandel(a, n)))
+        # fixed corpus entries (the same tensor on every run, whatever the seed) are named after their content
+        out.append(("fix:%s" % fixed if fixed else "%s%d_%d" % (cat, n, len(out)), cat, n, to_mandel(a, n)))
 
     ident = [[1.0, 0, 0], [0, 1.0, 0], [0, 0, 1.0]]
     base = [(1.5, 7.0, 4.25), (1.0, 0.0, 0.0), (0.0, 0.0, 0.0), (2.0, 2.0, 2.0), (5.0, 5.0, 1.0), (1.0, 5.0, 5.0),
@@ -102,7 +103,17 @@ def cases(rng, n_random, dims=(2, 3)):
     for n in dims:
         # diagonal tensors (all permutations are in `base`; plus seeded ones)
         for l in base:
-            add("diag", n, l, ident)
+            add("diag", n, l, ident, fixed="diag%d(%s)" % (n, ",".join("%.12g" % x for x in l)))
+        if n == 3:
+            # exactly double eigenvalue with rational eigenvectors: b I + (a - b) u u^T, u a Pythagorean quadruple / its norm
+            # (the Cardano step of the default solver detects part of them as exactly double, which sends the eigenvector
+            # construction through find_perpendicular_vector; the three orders of |u_i| reach its three branches)
+            for (a_, b_) in ((-5.0, 1.0), (2.0, -1.0), (7.0, 3.0), (1.0, 4.0)):
+                for u in ((3, 2, 6), (2, 3, 6), (6, 3, 2), (2, 6, 3), (6, 2, 3), (3, 6, 2), (1, 2, 2), (2, 1, 2), (2, 2, 1),
+                          (1, 4, 8), (4, 1, 8), (8, 4, 1), (4, 4, 7), (7, 4, 4), (2, 6, 9), (9, 2, 6), (6, 9, 2), (-3, 2, 6), (3, -6, 2)):
+                    nu = math.sqrt(sum(x * x for x in u))
+                    m = [[b_ * (1.0 if i == j else 0.0) + (a_ - b_) * u[i] * u[j] / (nu * nu) for j in range(3)] for i in range(3)]
+                    out.append(("fix:double3(a=%g,b=%g,u=%d/%d/%d)" % ((a_, b_) + u), "double", 3, to_mandel(m, 3)))
         for _ in range(max(4, n_random // 20)):
             add("diag", n, [rng.uniform(-10, 10) for _ in range(3)], ident)
 
